@@ -114,6 +114,33 @@ pub fn drive_c06(a: &Args, out: &mut Out) {
             }
         }
     }
+    // late features: a long plain head (no CR, no blank other than ' ', ASCII only) followed by a
+    // short tail with everything interesting - and the mirror image (scanners that sniff the
+    // head of the input, or switch strategy by size, must not depend on it)
+    let heads: &[usize] = if thorough { &[5000, 8000, 8192, 10000, 16384, 20000, 65536, 70000] } else { &[8000, 8192, 10000, 16384, 20000] };
+    for &l in heads {
+        let mut head = String::new();
+        for i in 0..l {
+            head.push(if i % 61 == 60 { '\n' } else if i % 7 == 6 { ' ' } else { 'x' });
+        }
+        for v in 0..2 {
+            let tail: Vec<u8> = if v == 0 {
+                let mut t = textgen::random_str(&mut rng, 12);
+                t.push_str("a\rb\rc\r\nd\u{2028}e\u{85}f\n");
+                t.into_bytes()
+            } else {
+                let mut t = textgen::random_bytes(&mut rng, 12);
+                t.extend_from_slice(b"a\rb\xff\rc\n");
+                t
+            };
+            let mut t1 = head.clone().into_bytes();
+            t1.extend_from_slice(&tail);
+            emit_tokens(&t1, out);
+            let mut t2 = tail.clone();
+            t2.extend_from_slice(head.as_bytes());
+            emit_tokens(&t2, out);
+        }
+    }
     // every invalid symbol between every pair of a few valid ones
     for inv in textgen::invalid_symbols() {
         for l in ["", "a", "\n", "\r", " ", "\u{e9}"] {
@@ -215,7 +242,7 @@ pub fn text_pairs(rng: &mut Rng, thorough: bool, with_invalid: bool) -> Vec<(Vec
                 let ins: Vec<u8> = if with_invalid && rng.chance(1, 4) {
                     textgen::invalid_symbols()[rng.below(7)].to_vec()
                 } else {
-                    textgen::str_symbols()[rng.below(20)].as_bytes().to_vec()
+                    (*rng.pick(&textgen::str_symbols())).as_bytes().to_vec()
                 };
                 // insert / delete at a unit boundary
                 let (us, _) = units(&b);
@@ -231,6 +258,18 @@ pub fn text_pairs(rng: &mut Rng, thorough: bool, with_invalid: bool) -> Vec<(Vec
             }
             b
         };
+        // a byte order mark, blank or line break in front of one side only / of both sides
+        let (mut a, mut b) = (a, b);
+        if i % 8 == 5 {
+            let pre = *rng.pick(&["\u{feff}", "\u{feff}", "\n", " ", "\r", "\u{2028}"]);
+            let which = rng.below(3);
+            if which != 1 {
+                a.splice(0..0, pre.bytes());
+            }
+            if which != 0 {
+                b.splice(0..0, pre.bytes());
+            }
+        }
         v.push((a, b));
     }
     // line texts
